@@ -29,9 +29,9 @@ CHECKS = {
     note=TB + "; the x86 back end is trusted not to turn the remaining arithmetic into secret-dependent branches; the result clause is decided on the -O0 IR; a loop body that branches on data is not handled by it (and is a violation of the first clause)"),
  "C10": dict(
     engine="derive",
-    technique="inter-procedural pointer-derivation and write-summary analysis: no store or writing callee effect reaches any operand of the 39 query functions",
+    technique="inter-procedural pointer-derivation and write-summary analysis: no store or writing callee effect reaches any operand of the 39 query functions; per-loop path enumeration with linear facts classifying budget exits (sa/scan.py)",
     category="other",
-    text="Decides, for all operand contents and sizes, the clause 'query functions never modify their operands': every pointer derived from an operand parameter (through casts, arithmetic, phi, libc/library functions that return interior pointers) is followed into every callee; any store or writing effect is a violation. Equality of the answers with strcmp/strstr/strspn/... is value-level and is not decided.",
+    text="Decides, for all operand contents and sizes, the clause 'query functions never modify their operands': every pointer derived from an operand parameter (through casts, arithmetic, phi, libc/library functions that return interior pointers) is followed into every callee; any store or writing effect is a violation. Also decided (scan completeness): in the 36 budgeted scan loops of these functions (a counter from a length argument decreasing by a constant, a cursor advancing by a constant) every exit whose guards bound the counter leaves the loop only after all `budget` elements were examined - a pre-decremented or `> 1` guard that leaves the last element untried is reported. Which exit yields which answer (equality with strcmp/strstr/strspn/...) is value-level and is not decided.",
     design_ref="DESIGN.md §4 C10",
     note=TB + "; only the operands-unmodified clause is claimed; out-of-bounds reads of these functions belong to C02"),
  "C13": dict(
@@ -82,7 +82,7 @@ CHECKS = {
     category="other",
     text="Covers every allocation site (18 in 10 functions) and every path from it, which is the statement 'for every position k at which the k-th allocation fails' without enumerating fault positions: a block that may be NULL must not be dereferenced or passed to a dereferencing routine, and a block that may be non-NULL must not be owned at a return. In functions with up to three allocation sites every allocation forks into a succeeded and a failed outcome, and on the failed outcome the call must not return a success value (a library callee that rejects a NULL dest itself - confirmed per callee by exploring it under dest == NULL - is assumed to fail there). The clause 'dest cleared as for any other violation' on the failure exit is C04's.",
     design_ref="DESIGN.md §3.3, §4 C20",
-    note=TB + "; allocator contract (NULL on failure, realloc keeps the old block on failure); a callee receiving a block is assumed to dereference it; 23 triaged known findings (12 unchecked allocations, leaks on wcsnorm ESNOSPC exits and the %ls failure path)"),
+    note=TB + "; allocator contract (NULL on failure, realloc keeps the old block on failure); a callee receiving a block is assumed to dereference it; 25 triaged known findings (12 unchecked allocations, leaks on the wcsnorm error exits and the %ls failure path); 'an allocation site runs again while its block is owned' is a verdict only at the fine precision level - wcsnorm_reorder_s/compose_s are explored at the coarse level, where it is listed as not decided (two earlier entries of that kind were false alarms and were removed)"),
  "C01": dict(
     engine="capcheck",
     technique="relational abstract interpretation of the cursor/budget idiom: linear loop equalities (null space of header-phi increments), lock-step and range candidates proved by induction (Houdini), dominating branch guards, Fourier-Motzkin entailment of 0 <= off and off + size <= declared capacity for every write",
@@ -115,14 +115,14 @@ CHECKS = {
     engine="capcheck",
     technique="bounded-index obligations on the plane-table loads (cp >> 16 into 17-entry arrays), discharged inside the lookup helper or turned into a precondition that every call site must entail, followed through private helpers to the exported entry points; interval-partition abstract interpretation of iswfc's comparison tree against the constant folding tables read by towfc_s; reader/table agreement of the generated normalisation tables (pointer and integer tables exported from the IR; interval-set reachability for the layout selector; constant folding of the reader's decode arithmetic over all stored values; composition/decomposition inverse check)",
     category="other",
-    text="Decides the clause 'code points above U+10FFFF are rejected rather than used as table indices' for every input string: each plane-table access is bounded where it happens or at all call sites of its helper. The iswfc/towfc_s agreement is decided for the multi-character foldings: iswfc touches its argument only through comparisons with constants, so its decision tree is evaluated exactly over the interval partition those constants induce; the code points it announces as 2 resp. 3 characters are exactly the key columns of towfc_s's 2- resp. 3-character tables (88 and 16 entries), the tables are strictly ascending and zero-terminated (the search stops at the first larger key), and a hit stores k+1 elements and returns k. Table agreement of the normalisation tables, exhaustive over every table entry: (L) each of the 442 composition lists is walked with the element size it is stored in (the 16-/32-bit layout selector, decided by interval-set reachability over the reader's comparisons), is reachable, strictly ascending and zero-terminated; (K) the searched code point is not truncated before the key comparison; (D) every packed (length, index) value stored in the three-level canonical decomposition table decodes, with the reader's own shifts, masks and address arithmetic constant-folded over the table contents, to exactly one row of an existing value table, the returned length is the row width, and every row is referenced; (I) the composition lists are the inverse of the stored decompositions (1022 pairs). The reorder/compose algorithm itself (blocking, combining classes), Hangul arithmetic, the identity of the tables with the UCD, and the single-character folding cases (libc iswupper/towlower) are not decided.",
+    text="Decides the clause 'code points above U+10FFFF are rejected rather than used as table indices' for every input string: each plane-table access is bounded where it happens or at all call sites of its helper. The iswfc/towfc_s agreement is decided for the multi-character foldings: iswfc touches its argument only through comparisons with constants, so its decision tree is evaluated exactly over the interval partition those constants induce; the code points it announces as 2 resp. 3 characters are exactly the key columns of towfc_s's 2- resp. 3-character tables (88 and 16 entries), the tables are strictly ascending and zero-terminated (the search stops at the first larger key), and a hit stores k+1 elements and returns k. Table agreement of the normalisation tables, exhaustive over every table entry: (L) each of the 442 composition lists is walked with the element size it is stored in (the 16-/32-bit layout selector, decided by interval-set reachability over the reader's comparisons), is reachable, strictly ascending and zero-terminated; (K) the searched code point is not truncated before the key comparison; (D) every packed (length, index) value stored in the three-level canonical decomposition table decodes, with the reader's own shifts, masks and address arithmetic constant-folded over the table contents, to exactly one row of an existing value table, the returned length is the row width, and every row is referenced; (I) the composition lists are the inverse of the stored decompositions (1022 pairs). Rejection (R): in the four entry points that take characters from a caller's string every element handed to a code-point consumer was range-checked against U+10FFFF in the entry point itself (interval-set reachability of the decoded value at the call). The reorder/compose algorithm itself (blocking, combining classes), Hangul arithmetic, the identity of the tables with the UCD, and the single-character folding cases (libc iswupper/towlower) are not decided.",
     design_ref="DESIGN.md §3.2, §4 C17",
-    note=TB + "; 32-bit wchar_t configuration; two fix: commits in /repo (two crashes on out-of-range code points; second code point truncated to 16 bits before the composition-list comparison); one known finding (U+037E stored as the reserved value 0: not decomposed; the repair contradicts an expectation pinned in the unedited test suite)"),
+    note=TB + "; 32-bit wchar_t configuration; three fix: commits in /repo (two crashes on out-of-range code points; second code point truncated to 16 bits before the composition-list comparison; reorder/compose/wcsfc_s did not reject out-of-range code points); one known finding (U+037E stored as the reserved value 0: not decomposed; the repair contradicts an expectation pinned in the unedited test suite)"),
  "C06": dict(
     engine="pathflags",
     technique="path-sensitive abstract interpretation with a 'destination budget exhausted before a terminator was copied' flag over the 10 non-truncating copy/concatenate functions; plus (in C05) a checked precondition 'measured strlen(src) < dmax' where the result of a nested copy is ignored; terminator-position typestate for the pointer-returning functions; byte accounting of the memory primitives (linear-arithmetic loop summaries + interval chaining)",
     category="other",
-    text="Decides the clause 'if the complete result does not fit the non-truncating functions fail instead of storing a shortened result': on no path does a success return follow the edge on which the counter initialised from dmax reached zero while data had been written and no terminator copied; every function has such exhausted paths (the rule is not vacuous) and they reach error returns. Also decided: the pointer returned by stpcpy_s/stpncpy_s on every success path is the address of the terminating null (the typestate remembers where the terminator was stored or proven, followed through merge phis). Also decided, for every length and alignment: the seven word-unrolled mem_prim_* primitives write every byte of dest[0 .. len*size) exactly once, in one direction, each element from the same offset of src (byte accounting: linear forms with quotient/remainder ties, a per-iteration progress rule for each of the 17 loops including the 16-way unrolled switch bodies, path walk with summarised loops, interval chaining at the return; mem_prim_move's precondition len >= 1 is established at its call sites). Equality of the bytes stored by the string functions with strcpy/strcat/..., results produced inside libc, and returned counts are value-level and not decided.",
+    text="Decides the clause 'if the complete result does not fit the non-truncating functions fail instead of storing a shortened result': on no path does a success return follow the edge on which the counter initialised from dmax reached zero while data had been written and no terminator copied; every function has such exhausted paths (the rule is not vacuous) and they reach error returns. Also decided: the pointer returned by stpcpy_s/stpncpy_s on every success path is the address of the terminating null (the typestate remembers where the terminator was stored or proven, followed through merge phis). Also decided, for every length and alignment: the seven word-unrolled mem_prim_* primitives write every byte of dest[0 .. len*size) exactly once, in one direction, each element from the same offset of src (byte accounting: linear forms with quotient/remainder ties, a per-iteration progress rule for each of the 17 loops including the 16-way unrolled switch bodies, path walk with summarised loops, interval chaining at the return; mem_prim_move's precondition len >= 1 is established at its call sites); and the length strerrorlen_s announces for each library message equals the length of that message (length table vs message table, all rows). Equality of the bytes stored by the string functions with strcpy/strcat/..., results produced inside libc, and returned counts are value-level and not decided.",
     design_ref="DESIGN.md §4 C06",
     note=TB + "; only the no-silent-truncation clause is claimed"),
  "C14": dict(
